@@ -1047,8 +1047,10 @@ func (w *c19World) opLendCreate(cw *c12World, denom string, total sdk.Int, days 
 	w.st()
 }
 
-// TestC19Lend: lend external reward programs on the world of the C12 fixture (one borrower who farms
-// in the master pool): reward denoms with different oracle prices, 1-3 days, several programs
+// TestC19Lend: lend external reward programs on the world of the C12 fixture: even cases with one borrower
+// who farms in the master pool, odd cases with three borrowers (accounts 1, 4, 5) whose farmed amounts are
+// changed by random unfarms, so that min(farmed value, borrowed value) differs between them;
+// reward denoms with different oracle prices, 1-3 days, several programs
 func TestC19Lend(t *testing.T) {
 	a, base := newApp(t)
 	tr := newTracer(t, "c19lend.trace")
@@ -1056,13 +1058,20 @@ func TestC19Lend(t *testing.T) {
 	r := newRng(seed())
 	ncases := envInt("VERIF_CASES", 30)
 	only := envInt("VERIF_CASE", -1)
-	cw := c12Setup(t, a, base)
+	ctx1, _ := base.CacheContext()
+	cw1 := c12SetupN(t, a, ctx1, 1)[0]
+	ctx3, _ := base.CacheContext()
+	cw3 := c12SetupN(t, a, ctx3, 3)[0]
 	for ci := 0; ci < ncases; ci++ {
 		cs := r.next()
 		if only >= 0 && ci != only {
 			continue
 		}
 		g := newRng(cs)
+		cw := cw1
+		if ci%2 == 1 {
+			cw = cw3
+		}
 		ctx, _ := cw.Ctx.CacheContext()
 		w := &c19World{t: t, a: a, ctx: ctx, tr: tr, now: cw.Ctx.BlockTime(), height: cw.Ctx.BlockHeight(), nacct: map[string]int{}}
 		for _, n := range c19Watched {
@@ -1072,6 +1081,18 @@ func TestC19Lend(t *testing.T) {
 			sdk.NewCoin("uatom", sdkmath.NewIntWithDecimal(1, 15))))
 		tr.p("case %d lend %d", ci, len(a.Rewardskeeper.GetAllGauges(w.ctx)))
 		w.st()
+		if len(cw.Owners) > 1 {
+			// different farmed amounts per borrower
+			for _, o := range cw.Owners {
+				if af, ok := a.LiquidityKeeper.GetActiveFarmer(w.ctx, cw.LiqApp, cw.LiqPool, o); ok && g.chance(70) {
+					amt := af.FarmedPoolCoin.Amount.MulRaw(int64(1 + g.intn(99))).QuoRaw(100)
+					if amt.IsPositive() {
+						class, _, _ := execMsg(a, w.ctx, liqtypes.NewMsgUnfarm(cw.LiqApp, cw.LiqPool, o, sdk.NewCoin(cw.PoolCoinDenom, amt)))
+						w.tr.p("env unfarm %d %d %s %s", w.acct(o.String()), cw.LiqPool, amt, class)
+					}
+				}
+			}
+		}
 		denoms := []string{"ucmdx", "ucmst", "uatom"}
 		ids := map[string]uint64{"ucmdx": cw.CMDX, "ucmst": cw.CMST, "uatom": cw.ATOM}
 		// the reward token's oracle price decides how much is paid per unit of reward value
